@@ -706,6 +706,44 @@ func c01GetMany(cs *h.Case, base []byte, pn generic.Node, n *nref, kids []*nref,
 	}
 }
 
+// c01ErrChain continues a lookup chain behind a failed step: every further step on the error result of an absent
+// or ill-shaped lookup is itself an error result (typed and untyped API), never a panic or a value.
+func c01ErrChain(cs *h.Case, pv generic.Value, n *nref) {
+	var errs []generic.Value
+	if pv.IsError() {
+		errs = append(errs, pv)
+	} else {
+		switch n.m.T {
+		case tref.STRUCT:
+			errs = append(errs, pv.Field(32767), pv.FieldByName("no-such-field-\x01"), pv.GetByPath(generic.NewPathFieldId(32767)))
+		case tref.LIST, tref.SET:
+			errs = append(errs, pv.Index(len(n.m.L)+7), pv.GetByPath(generic.NewPathIndex(len(n.m.L)+7)))
+		case tref.MAP:
+			errs = append(errs, pv.GetByStr("no-such-key-\x01"), pv.GetByInt(-2147480001))
+		default:
+			errs = append(errs, pv.Field(1), pv.Index(0), pv.GetByStr("k"), pv.GetByInt(1))
+		}
+	}
+	for _, e := range errs {
+		if !e.IsError() {
+			continue // judged by the absent/shape probes
+		}
+		next := map[string]generic.Node{
+			"Value.Field": e.Field(1).Node, "Value.FieldByName": e.FieldByName("a").Node, "Value.Index": e.Index(0).Node,
+			"Value.GetByStr": e.GetByStr("k").Node, "Value.GetByInt": e.GetByInt(1).Node,
+			"Value.GetByPath": e.GetByPath(generic.NewPathIndex(0)).Node, "Value.GetByPath(name)": e.GetByPath(generic.NewPathFieldName("a")).Node,
+			"Node.Field": e.Node.Field(1), "Node.Index": e.Node.Index(0), "Node.GetByStr": e.Node.GetByStr("k"), "Node.GetByInt": e.Node.GetByInt(1),
+			"Node.GetByPath": e.Node.GetByPath(generic.NewPathStrKey("k")),
+		}
+		for api, x := range next {
+			if !x.IsError() {
+				cs.Viol("read:"+api+":value-behind-error", "type", int(x.Type()), "model", n.m.String(), "at", pathStr(n.path))
+			}
+			cs.Cover("error_chain_steps")
+		}
+	}
+}
+
 // absent elements must be reported as not-found; never a panic.
 func c01Absent(cs *h.Case, rootNode generic.Node, rootVal generic.Value, pn generic.Node, n *nref, kids []*nref) {
 	mustNotFound := func(api string, x generic.Node) {
@@ -717,6 +755,7 @@ func c01Absent(cs *h.Case, rootNode generic.Node, rootVal generic.Value, pn gene
 		cs.Cover("absent_lookups")
 	}
 	with := func(p generic.Path) []generic.Path { return append(append([]generic.Path{}, n.path...), p) }
+	c01ErrChain(cs, rootVal.GetByPath(n.path...), n)
 	switch n.m.T {
 	case tref.STRUCT:
 		used := map[int16]bool{}
